@@ -205,6 +205,7 @@ func Main(prop string) {
 	out := lib.NewOut(a.Out)
 	out.Rule = "programs of the core language: hand-shaped families (idioms) and their random mutations, every expression up to a small size over a reduced vocabulary (exhaustive), and random typed programs (1-40 nodes, depth <= 8, names x y f, operands from a boundary grid), each rendered as real source (plain, random whitespace/comments, or infix for binary operators); a case counts as non-trivial when the program has at least 3 nodes; distinct = distinct programs (prefix form)"
 	r := NewRunner(budget)
+	r.OnHang = func() { out.Close(a.Stats) }
 	st.Each(func(c Case) {
 		if os.Getenv("REFGEN_DEBUG") != "" {
 			fmt.Fprintf(os.Stderr, "RUN %s\n", esc(c.Src))
@@ -212,7 +213,11 @@ func Main(prop string) {
 		obs := r.RunSource(c.Src, c.P.FailAt)
 		input := c.P.Prefix()
 		if c.Twin != "" {
-			input = fmt.Sprintf("twin=%s:%d %s", c.Twin, c.TwinOf, input)
+			shadow := 0
+			if c.P.ShadowsSelfName() {
+				shadow = 1
+			}
+			input = fmt.Sprintf("twin=%s:%d:%d %s", c.Twin, c.TwinOf, shadow, input)
 		}
 		tags := append(append([]string{}, c.Tags...), "outcome:"+strings.SplitN(obs, ":", 2)[0])
 		if c.Twin == "" {
@@ -236,6 +241,14 @@ func Main(prop string) {
 			}
 			src := p.Source(Style{})
 			out.Case("bytecode=1 "+p.Prefix(), lr.Listing(src)+"\t"+esc(src), p.Size() >= 3, "stream:bytecode-listing")
+		}
+		for i := 0; i < nbc; i++ {
+			p := &Program{Forms: []*Node{GenF1(rng, 2+rng.Intn(5), nil)}}
+			if i%3 == 0 {
+				p.Forms = append(p.Forms, GenF1(rng, 1+rng.Intn(3), nil))
+			}
+			src := p.Source(Style{})
+			out.Case("bytecode=2 "+p.Prefix(), lr.ListingF1(src)+"\t"+esc(src), p.Size() >= 3, "stream:bytecode-listing-f1")
 		}
 	}
 	out.Extra["interpreters_created"] = r.Recycled
